@@ -179,6 +179,8 @@ type c04Req struct {
 	Dets      []string `json:"detectors,omitempty"`
 	Killed    []string `json:"killed,omitempty"`
 	FailedEnv string   `json:"env_of_failed_creation,omitempty"`
+	Illegal   bool     `json:"illegal_on_purpose,omitempty"`
+	OnErrEnv  string   `json:"targets_detector_of_environment_in_ERROR,omitempty"`
 }
 
 type c04Env struct {
@@ -225,6 +227,7 @@ type c04Snap struct {
 	Step   int             `json:"step"`
 	Envs   []c04SnapEnv    `json:"envs"`
 	Roster map[string]bool `json:"roster_locked"`
+	Active []string        `json:"active_detectors"`
 }
 
 type c04Hist struct {
@@ -420,6 +423,14 @@ func (h *c04Hist) snapshot(cli pb.ControlClient, client, step int) error {
 	if err != nil {
 		return err
 	}
+	ctx, cancel = coresim.Ctx(60 * time.Second)
+	dr, err := cli.GetActiveDetectors(ctx, &pb.Empty{})
+	cancel()
+	if err != nil {
+		return err
+	}
+	sn.Active = append([]string(nil), dr.GetDetectors()...)
+	sort.Strings(sn.Active)
 	sn.S1 = vlib.Seq()
 	for _, t := range tr.GetTasks() {
 		sn.Roster[t.GetTaskId()] = t.GetLocked()
@@ -469,6 +480,9 @@ func (h *c04Hist) pickEnv(r *rand.Rand, forDestroy bool) *c04Env {
 		}
 		if !forDestroy && (e.DestroyStart != 0 || e.state == "ERROR" || e.degraded != 0) {
 			continue
+		}
+		if forDestroy && e.state == "ERROR" && e.DestroyStart == 0 && r.Intn(100) < 65 {
+			continue // an environment in ERROR is left alone for a while: it still holds its tasks and detectors
 		}
 		cand = append(cand, e)
 	}
@@ -538,6 +552,8 @@ func (h *c04Hist) client(cl int, r *rand.Rand) {
 			kind = pickW(r, w)
 			if r.Intn(100) < 7 {
 				kind = 5 // a non-critical task of a live environment terminates
+			} else if r.Intn(100) < 8 {
+				kind = 6 // an illegal request drives a live environment to ERROR; it stays (nobody destroys it on purpose)
 			}
 		}
 		var injectTask string
@@ -563,7 +579,7 @@ func (h *c04Hist) client(cl int, r *rand.Rand) {
 				}
 			}
 		}
-		if kind == 1 {
+		if kind == 1 || kind == 6 {
 			if env = h.pickEnv(r, false); env == nil {
 				kind = 0
 			}
@@ -618,6 +634,26 @@ func (h *c04Hist) client(cl int, r *rand.Rand) {
 					cand = slow
 				}
 			}
+			// an environment in ERROR that nobody destroyed still holds its detectors: ask for one of them
+			var errEnvs []*c04Env
+			for _, id := range h.order {
+				if e := h.envs[id]; !e.dead && e.DestroyStart == 0 && e.state == "ERROR" {
+					errEnvs = append(errEnvs, e)
+				}
+			}
+			if len(errEnvs) > 0 && r.Intn(100) < 40 {
+				ee := errEnvs[r.Intn(len(errEnvs))]
+				var hit []c04Tpl
+				for _, t := range c04Templates {
+					if len(intersect(t.dets(), ee.Dets)) > 0 {
+						hit = append(hit, t)
+					}
+				}
+				if len(hit) > 0 {
+					cand = hit
+					req.OnErrEnv = ee.ID
+				}
+			}
 			req.Tpl = cand[r.Intn(len(cand))].Name
 		case 1:
 			req.Kind = "control"
@@ -643,6 +679,14 @@ func (h *c04Hist) client(cl int, r *rand.Rand) {
 			if env.degraded != 0 && !strings.Contains(req.Op, "force") {
 				// a terminated task never answers the RESET of a plain destroy (90 s command timeout)
 				req.Op = "force"
+			}
+		case 6:
+			req.Kind = "control"
+			req.Env = env.ID
+			req.Illegal = true
+			req.Op = map[string]string{"CONFIGURED": "STOP_ACTIVITY", "RUNNING": "CONFIGURE", "DEPLOYED": "START_ACTIVITY", "STANDBY": "START_ACTIVITY"}[env.state]
+			if req.Op == "" {
+				req.Op = "STOP_ACTIVITY"
 			}
 		case 5:
 			req.Kind = "inject"
@@ -1040,6 +1084,17 @@ func (h *c04Hist) evaluate() {
 			if ok {
 				c.Count("controls_ok", 1)
 			}
+			if r.Illegal && !ok {
+				c.Count("environments_driven_to_error", 1)
+			}
+		}
+		if r.Kind == "create" && r.OnErrEnv != "" {
+			if hd := envs[r.OnErrEnv]; hd != nil && hd.live(r.Start, r.End) {
+				c.Count("creates_on_detector_held_by_error_env", 1)
+				if strings.Contains(r.Err, "already in use") {
+					c.Count("creates_on_detector_held_by_error_env_refused", 1)
+				}
+			}
 		}
 	}
 	for i, a := range reqs {
@@ -1077,6 +1132,36 @@ func (h *c04Hist) evaluate() {
 	}
 	c.Interleaving(vlib.Hash(strings.Join(il, " ")))
 
+	// the class of a detector conflict says how it came about: two creations in flight at once, or a creation
+	// that succeeded although the holder was live - and whether the holder was sitting in ERROR at that time
+	// (an environment in ERROR that was not destroyed keeps its tasks and its detectors)
+	stateBefore := func(id string, seq int64) string {
+		st, best := "", int64(-1)
+		for _, sn := range snaps {
+			if sn.S1 < seq && sn.S1 > best {
+				for _, se := range sn.Envs {
+					if se.ID == id {
+						st, best = se.State, sn.S1
+					}
+				}
+			}
+		}
+		return st
+	}
+	detKind := func(e, f *c04Env) string {
+		if overlap(e.CreateStart, e.CreateEnd, f.CreateStart, f.CreateEnd) {
+			return "concurrent-creations"
+		}
+		first, second := e, f
+		if f.CreateStart < e.CreateStart {
+			first, second = f, e
+		}
+		if stateBefore(first.ID, second.CreateStart) == "ERROR" {
+			return "holder-in-ERROR"
+		}
+		return "second-created-while-first-live"
+	}
+
 	// ---- (1)+(3) from the replies: ownership / detector intervals of two environments overlap
 	for i, ida := range order {
 		for _, idb := range order[i+1:] {
@@ -1097,7 +1182,7 @@ func (h *c04Hist) evaluate() {
 					map[string]interface{}{"task": sh[0], "env_a": e.ID, "env_b": f.ID, "source": "NewEnvironment replies"}, sh[0])
 			}
 			if sd := intersect(e.Dets, f.Dets); len(sd) > 0 {
-				violate("DET-EXCL", h.pairKind(e, f), fmt.Sprintf("detector %s is included in two environments that were live at the same time (%s from %s, %s from %s)", sd[0], e.ID, e.Tpl, f.ID, f.Tpl), e.ID+f.ID,
+				violate("DET-EXCL", detKind(e, f), fmt.Sprintf("detector %s is included in two environments that were live at the same time (%s from %s, %s from %s)", sd[0], e.ID, e.Tpl, f.ID, f.Tpl), e.ID+f.ID,
 					map[string]interface{}{"detector": sd[0], "env_a": e.ID, "env_b": f.ID, "source": "NewEnvironment replies"}, "")
 			}
 		}
@@ -1178,6 +1263,15 @@ func (h *c04Hist) evaluate() {
 			// a live environment's tasks stay locked and stay in the core's task list: nobody but the
 			// environment's own teardown may release them, and cleanup only removes unlocked tasks
 			c.Count("snapshot_owned_tasks_judged", int64(len(a.Tasks)))
+			// ... and its detectors are in use, whatever its state, until it is destroyed
+			for _, d := range a.Dets {
+				c.Count("snapshot_detectors_of_live_envs_judged", 1)
+				if !contains(sn.Active, d) {
+					violate("DETECTOR-NOT-ACTIVE", "holder-in-"+a.State, fmt.Sprintf("GetActiveDetectors %v does not list detector %s although live environment %s (state %s, no destroy requested) includes it", sn.Active, d, a.ID, a.State), a.ID,
+						map[string]interface{}{"detector": d, "snapshot": sn}, "")
+					break
+				}
+			}
 			if len(a.Unlocked) > 0 {
 				violate("OWNED-NOT-LOCKED", "live-environment", fmt.Sprintf("GetEnvironments shows task %s of live environment %s (state %s, no destroy requested) as not locked: it was released by something other than the environment's teardown", a.Unlocked[0], a.ID, a.State), a.ID,
 					map[string]interface{}{"task": a.Unlocked[0], "snapshot": sn}, a.Unlocked[0])
@@ -1198,7 +1292,7 @@ func (h *c04Hist) evaluate() {
 						map[string]interface{}{"task": sh[0], "snapshot": sn}, sh[0])
 				}
 				if sd := intersect(a.Dets, b.Dets); len(sd) > 0 {
-					violate("DET-EXCL", h.pairKind(e, f), fmt.Sprintf("GetEnvironments lists two live environments whose includedDetectors intersect in %s (%s state %s, %s state %s)", sd[0], a.ID, a.State, b.ID, b.State), a.ID+b.ID,
+					violate("DET-EXCL", detKind(e, f), fmt.Sprintf("GetEnvironments lists two live environments whose includedDetectors intersect in %s (%s state %s, %s state %s)", sd[0], a.ID, a.State, b.ID, b.State), a.ID+b.ID,
 						map[string]interface{}{"detector": sd[0], "snapshot": sn}, "")
 				}
 			}
